@@ -39,13 +39,48 @@ def c05(tier, seed):
 
 
 ENGINES = {
+    "iterq": ({"C06"}, "by-value iterator vs VecDeque / native-array twins: exhaustive one-step + random sequences"),
     "faults": ({"C04", "C05"}, "fault enumeration: injected panics at every callback index / destructor bombs, ownership ledger; native + Miri + ASan + memcheck"),
 }
 
 # properties not claimed (yet), with the reason that goes to MANIFEST.not_applicable
 NOT_CLAIMED = {}
 
+def c06(tier, seed):
+    if tier == "quick":
+        return [
+            Run("iterq", "debug", ["--flavours", "Tok,u32,ZTok,String"], shards=4),
+            Run("iterq", "miri", ["--flavours", "HeapTok,ZTok", "--maxn", "3", "--budget", "12"], shards=16, label="iterq/miri(N<=3)"),
+        ]
+    return [
+        Run("iterq", "debug", ["--flavours", "Tok,u32,ZTok,String"], shards=16),
+        Run("iterq", "release", ["--flavours", "Tok,u32,ZTok,String"], shards=16),
+        Run("iterq", "miri", ["--flavours", "HeapTok,ZTok,u32", "--maxn", "5", "--budget", "40", "--part", "A"], shards=32, label="iterq/miri(A,N<=5)"),
+        Run("iterq", "miri", ["--flavours", "HeapTok", "--maxn", "17", "--budget", "60", "--part", "B"], shards=16, label="iterq/miri(B,N<=17)"),
+        Run("iterq", "asan", ["--flavours", "HeapTok,String", "--budget", "4000"], shards=8),
+    ]
+
+
 SPECS = {
+    "C06": dict(
+        engine="iterq",
+        technique="reference-model monitor (VecDeque + [T;N]::into_iter twins) over exhaustive one-step transitions and seeded random sequences; ledger for overlap/skip; Miri/ASan",
+        level="exploration",
+        level_text=("Part A executes every operation with every argument (0..=len+2, usize::MAX) from every reachable (front, back) position for "
+                    "N in 0..=8 and compares the return value and the successor state with a VecDeque of the same ids and with "
+                    "[u64;N]::into_iter(); because successor states are compared, this covers every finite sequence for those N. Part B runs "
+                    "seeded random sequences with clone-then-diverge for N up to 1024. The ledger confirms each id is yielded or dropped once."),
+        level_note="Trusted: std's VecDeque and array::IntoIter as executable specifications; harness in harness/src/bin/iterq.rs.",
+        runs=c06,
+        min_cases=5000,
+        must_count=["partB.steps", "ledger.clones"],
+        exhaustive={"quick": True, "thorough": True},
+        rule=("part A: one case = (operation+argument, flavour, N<=8, position (f,b)), all enumerated; part B: one case = one seeded random "
+              "sequence of 5..60 operations over up to 4 live iterators (clones diverge); non-trivial = at least one element remaining "
+              "at the position (A) / more than 3 operations executed (B)"),
+        explanation="return values + successor states vs VecDeque and native array iterator; ownership ledger; Miri on N<=3 (quick) / N<=5 (thorough)",
+        assumptions=["lengths above 8 are sampled (part B), not enumerated"],
+    ),
     "C04": dict(
         engine="faults",
         technique="fault enumeration (injected panic at every callback index) + ownership-ledger monitor; Miri/ASan/memcheck on heap-payload elements",
